@@ -240,6 +240,12 @@ func (m *Manager) BlocksForHistory(history []types.BlockID, maxBlocks uint64) ([
 	return blocks, m.tipState.Index.Height - (attachHeight + maxBlocks), nil
 }
 
+// onBestChain reports whether index is part of the best chain.
+func (m *Manager) onBestChain(index types.ChainIndex) bool {
+	bi, ok := m.store.BestIndex(index.Height)
+	return ok && bi.ID == index.ID
+}
+
 // AddBlocks ingests a chain of blocks. If the blocks are valid, the chain they
 // belong to may become the new best chain, triggering a reorg.
 func (m *Manager) AddBlocks(blocks []types.Block) error {
@@ -258,6 +264,11 @@ func (m *Manager) AddBlocks(blocks []types.Block) error {
 		if _, bs, _ := m.store.Block(bid); bs != nil {
 			// already have this block
 			cs, _ = m.store.State(bid)
+			continue
+		} else if bcs, ok := m.store.State(bid); ok && m.onBestChain(bcs.Index) {
+			// already applied, but its body has been pruned; storing it again
+			// would replace its state and leave a body without a supplement
+			cs = bcs
 			continue
 		} else if b.ParentID != cs.Index.ID {
 			if cs, ok = m.store.State(b.ParentID); !ok {
